@@ -254,8 +254,8 @@ def _canonical(params):
     "C03",
     "transfer_members",
     transfer_case,
-    quick=400,
-    thorough=8000,
+    quick=2000,
+    thorough=50000,
     tol=f"ulp32: rtol {RTOL_TRANSFORM} of max|scalar run| per member; axis values exact",
     rule="some distribution has >=2 distinct values",
     nontrivial_floor=0.4,
@@ -494,8 +494,8 @@ def _run_builder(case, builder, scan, detectors=None):
     "C03",
     "builder_members",
     builder_case,
-    quick=250,
-    thorough=5000,
+    quick=1000,
+    thorough=30000,
     tol=f"ulp32: rtol {RTOL_PIPELINE} of max|scalar run| per member; axis values exact (scan positions 1e-6 relative)",
     rule="some distribution / scan has >=2 distinct values",
     nontrivial_floor=0.4,
@@ -657,8 +657,8 @@ def _detect(case, builder):
     "C03",
     "ensemble_mean",
     mean_case,
-    quick=200,
-    thorough=4000,
+    quick=600,
+    thorough=20000,
     tol=f"ulp32: rtol {RTOL_PIPELINE} of max|reference|",
     rule="an averaged distribution has >=2 distinct values",
     nontrivial_floor=0.25,
